@@ -9,6 +9,7 @@ and of the code that assembles them:
   (`is_empty`, `unrecoverable_errors`)
                        barter/src/engine/action/{send_requests,generate_algo_orders,mod}.rs
   the audit assembly at the end of `Engine::process`      barter/src/engine/mod.rs:146-186
+  (as of /repo a7785e6: the AlgoOrders output is kept when an algo send fails unrecoverably)
 
 Part 1 is the concrete model (one definition per Rust function, same match arms, same order of
 `push`/`extend`). Part 2 (`namespace Spec`) is the abstract reading: a `NoneOneOrMany` is a finite
@@ -529,7 +530,7 @@ def assemble {ε ω κ : Type} (pre : Pre ε ω κ) (algo : Option (AlgoView ω 
     | some a =>
       if a.isEmpty then .process pre.audit
       else match a.unrecoverable with
-        | some u => .process (pre.audit.addErrors u.intoIter)
+        | some u => .process ((pre.audit.addOutput a.asOutput).addErrors u.intoIter)
         | none => .process (pre.audit.addOutput a.asOutput)
 
 /-! ## Part 2 — abstract reading (written from the names / the types, not from the match arms)
@@ -823,5 +824,37 @@ def specEngineErrors (dead : Nat → Bool) (enabled : Bool) (ev : EngEv) (algoC 
   else if enabled' && !ev.terminal then
     failedSends dead (algoC.filter (!refused ·)) ++ failedSends dead (algoO.filter (!refused ·))
   else []
+
+/-- what the first stage of `Engine::process` reports for an event -/
+def firstOutputs (enabled : Bool) : EngEv → List Out
+  | .shutdown => []
+  | .cmdCancel _ => [.cmd]
+  | .cmdOpen _ => [.cmd]
+  | .tsOn => []
+  | .tsOff => if enabled then [.td 0] else []
+  | .mkt => []
+  | .mktRe => [.md 0]
+  | .accRe => [.ad 0]
+
+/-- a command's own sends failed unrecoverably -/
+def cmdFailed (dead : Nat → Bool) : EngEv → Bool
+  | .cmdCancel r => !(failedSends dead r).isEmpty
+  | .cmdOpen r => !(failedSends dead r).isEmpty
+  | _ => false
+
+/-- the trading state after the event -/
+def enabledAfter (enabled : Bool) : EngEv → Bool
+  | .tsOn => true
+  | .tsOff => false
+  | _ => enabled
+
+/-- abstract reading of the outputs of one `Engine::process` audit: what the first stage produced (the
+command's output, the on-trading-disabled / on-disconnect output), followed by the AlgoOrders output
+whenever generation ran and generated anything at all - sent, failed or refused (since /repo a7785e6
+also when a send failed unrecoverably: nothing generated is dropped). -/
+def specEngineOutputs (dead : Nat → Bool) (enabled : Bool) (ev : EngEv) (algoC algoO : List Req) : List Out :=
+  if !ev.terminal && !cmdFailed dead ev && enabledAfter enabled ev && !(algoC.isEmpty && algoO.isEmpty)
+  then firstOutputs enabled ev ++ [.algo]
+  else firstOutputs enabled ev
 
 end BarterModel.Collections
